@@ -107,10 +107,14 @@ class World12:
             return "ok"
         if k == "solve":
             self.seam.mode = "stub"
+            self.seam.stub_point = "seeded"
             self.seam.next_fault = step.get("fault")
             try:
-                a.ocp.solve()
+                sol = a.ocp.solve()
                 out = "ok"
+                self.readback(sol)
+            except Violation:
+                raise
             except (S.SolverFailure, KeyboardInterrupt):
                 out = "raised:solver"
                 self.stats["faults"]["solver_" + step["fault"]] = self.stats["faults"].get("solver_" + step["fault"], 0) + 1
@@ -272,6 +276,33 @@ class World12:
                 return True
             return any(n not in node.syms for n in E.symbols_of(ast[2]) if not n.startswith("@"))
         return any(self._in_missing(x) for x in ast[1:])
+
+    def readback(self, sol):
+        """sol(stage).sample refers to that stage only: compare with the stage's own symbolic sample evaluated on
+        the same solution, for every stage, in both reading orders (clones share their symbols)"""
+        a = self.act
+        names = [n for n, _ in a.spec.stages if a.sub[n].spec.names("state") and a.sub[n].spec.method]
+        if len(names) < 1 or self.tainted:
+            return
+        for order in (names, list(reversed(names))):
+            for nm in order:
+                n = a.sub[nm]
+                x = n.syms[n.spec.names("state")[0]]
+                try:
+                    tt, got = sol(n.ocp).sample(x, grid="control")
+                    e_t, e_x = n.ocp.sample(x, grid="control")
+                    exp = np.array(sol.sol.value(e_x), dtype=float)
+                    exp_t = np.array(sol.sol.value(e_t), dtype=float)
+                except Exception:
+                    self.probe("readback_unavailable")
+                    return
+                got = np.array(got, dtype=float)
+                if got.size != exp.size or not np.allclose(got.flatten(), exp.T.flatten() if exp.ndim > 1 else exp.flatten(), rtol=1e-9, atol=1e-12, equal_nan=True) \
+                        or not np.allclose(np.array(tt, dtype=float).flatten(), exp_t.flatten(), rtol=1e-9, atol=1e-12, equal_nan=True):
+                    raise Violation("readback-differs", "sol(stage %s).sample returns %s at times %s, the stage's own sample evaluates to %s at %s" % (
+                        nm, np.round(got.flatten(), 6).tolist()[:8], np.round(np.array(tt).flatten(), 6).tolist()[:8],
+                        np.round(exp.flatten(), 6).tolist()[:8], np.round(exp_t.flatten(), 6).tolist()[:8]))
+        self.probe("readback_checked")
 
     def unexpected_raise(self, what, e, redo):
         """is the specification itself ill-posed (then the direct rewrite raises too) or did templates / clones /
@@ -525,7 +556,7 @@ def gen_run(r, w, steps, emit, restarts=False):
         names["stage"].append(nm)
     emit({"op": "solver", "name": "ipopt", "opts": {}})
     for i in range(swarm["nsteps"]):
-        kinds = [(2, "edit_stage"), (2, "check"), (1.5, "couple"), (1, "solve"), (0.7, "query")]
+        kinds = [(2, "edit_stage"), (2, "check"), (1.5, "couple"), (1.5, "solve"), (0.7, "query"), (0.6, "root_method")]
         if restarts:
             kinds.append((2.5, "restart"))
         if names["tpl"]:
@@ -538,6 +569,8 @@ def gen_run(r, w, steps, emit, restarts=False):
             emit({"op": "check"})
         elif k == "restart":
             emit({"op": "restart", "path": "ms.rockit"})
+        elif k == "root_method":
+            emit({"op": "method", "m": {"cls": "DirectMethod"}})  # the parent's own (trivial) method, declared again
         elif k == "solve":
             d = {"op": "solve"}
             if r.random() < swarm["p_fault"]:
